@@ -363,6 +363,12 @@ func (c18) Gen(r *sim.RNG, tier string, idx int) *Scenario {
 			sc.Note = "file references with queries"
 		}
 	}
+	if sc.Note == "" && r.Bool(0.2) {
+		// references to the built-in meta-schemas, which no store holds: they resolve offline without
+		// a cache and must do so with one (judged by the cache-state comparison only)
+		injectRefs(sc.World, r, metaRefsSmall)
+		sc.Note = "references to built-in meta-schemas"
+	}
 	// a sequence of element expansions; Run derives the cache-state variants of each
 	n := 2 + r.Intn(4)
 	ops := elementOps(sc.World, r, 0, false)
@@ -456,7 +462,7 @@ func (c18) Run(sc *Scenario) *Verdict {
 	v := &Verdict{}
 	w := sc.World
 	full := w.Reachable(w.RootNode(), false)
-	hasIDs := (sc.Cfg != nil && (sc.Cfg.IDs > 0 || sc.Cfg.IDScopes)) || sc.Note == "file references with queries"
+	hasIDs := (sc.Cfg != nil && (sc.Cfg.IDs > 0 || sc.Cfg.IDScopes)) || sc.Note == "file references with queries" || sc.Note == "references to built-in meta-schemas"
 	if (len(full.Bad) > 0 || full.IllFound) && !hasIDs {
 		v.Inconclusive = "world is not well-formed (outside this property's quantifier)"
 		return v
